@@ -234,6 +234,52 @@ def _generators(ctx):
                 ctx.check(not lo, "C14.D3", "ranges-lossless:%s" % b.path.rsplit("::", 1)[-1], site(b, lo[0][1]) if lo and lo[0][1] is not None else site(b, bb), ok="all stored ranges reach the generator",
                           bad="the ranges handed to the generator pass through %s, which can drop entries (several local nodes collected under one key keep only one node's ranges): covered slots are missing from CLUSTER NODES / SLOTS" % [x[0] for x in lo])
     ctx.floor("C14.D3", "generator helper calls with a range argument", nh, 4)
+    # inside the helpers every range of a range list is emitted: the list is walked, never sampled (a fragmented list
+    # `2 0-4000 8001-12000` must not be advertised as 0-12000)
+    PICK = ("first", "last", "get", "nth", "split_first", "split_last", "first_mut", "last_mut", "get_unchecked")
+    nwalk = 0
+    for b in F.all_bodies(bins=False):
+        if b.is_mock() or b.kind == "Promoted" or "tests::" in b.path or not (b.path.startswith("proxy::cluster::gen_cluster_slots_helper") or b.path.startswith("proxy::cluster::gen_cluster_nodes_helper")):
+            continue
+        du = DefUse(b)
+        du.follow_accessors = True
+        for bb, t in b.calls():
+            if not t["args"]:
+                continue
+            last = (callee_of(t) or callee_decl(t) or "").rsplit("::", 1)[-1]
+            sl = du.slice_operand(t["args"][0], deep=False)
+            if not sl.has_call("get_ranges"):
+                continue
+            if last in ("iter", "into_iter"):
+                nwalk += 1
+            if last in PICK:
+                ctx.violation("C14.D3", "range-list-walked:%s" % b.path.split("::{")[0].rsplit("::", 1)[-1], site(b, bb),
+                              "the generator takes `%s` of a range list instead of walking it: a list with more than one range is advertised as one span (or only in part), so slots in the holes are listed under two nodes / not at all" % last)
+    if ctx.floor("C14.D3", "range lists walked in the generator helpers", nwalk, 1):
+        ctx.holds("C14.D3", "range-list-walked", None, "range lists are iterated (%d walks), no element picker on them" % nwalk)
+    # the remote half keeps every peer range it was given: the parameter reaches the routing table and the stored
+    # advertisement map without an element-dropping step (the destination relies on the peer's migrating range while
+    # its own importing range is hidden)
+    for b in F.all_bodies(bins=False):
+        if b.is_mock() or b.kind == "Promoted" or "tests::" in b.path or not b.path.startswith("proxy::cluster::RemoteCluster") or not b.path.endswith("::from_slot_map"):
+            continue
+        ctx.analysed(b)
+        du = DefUse(b)
+        los = []
+        nuse = 0
+        for bb, t in b.calls():
+            for a, ty in zip(t["args"], t.get("atys", [])):
+                if "HashMap<std::string::String, std::vec::Vec<common::cluster::SlotRange>>" in ty.replace("std::collections::hash_map::", "std::collections::").replace("std::collections::HashMap", "HashMap"):
+                    nuse += 1
+                    los += lossy_ops(b, du.slice_operand(a))
+        for bb, i, st in b.assigns():
+            if st["rv"]["k"] == "agg" and st["rv"].get("ak") == "adt" and "RemoteCluster" in norm(st["rv"]["adt"]):
+                for o in st["rv"]["ops"]:
+                    los += lossy_ops(b, du.slice_operand(o))
+                nuse += 1
+        if ctx.floor("C14.D3", "uses of the peer range map in RemoteCluster::from_slot_map", nuse, 2):
+            ctx.check(not los, "C14.D3", "peer-ranges-lossless:from_slot_map", site(b, los[0][1]) if los and los[0][1] is not None else site(b), ok="every peer range reaches the routing table and the advertisement map",
+                      bad="the peer ranges pass through %s before the remote tables are built: ranges can be dropped (e.g. the peer's migrating range, which is the only advertisement of those slots while the destination still hides its importing range)" % sorted({x[0] for x in los}))
     # the four halves get the caller's migration_states
     for fn, callees in (("ClusterBackendMap::gen_cluster_nodes", ("gen_local_cluster_nodes", "gen_remote_cluster_nodes")), ("ClusterBackendMap::gen_cluster_slots", ("gen_local_cluster_slots", "gen_remote_cluster_slots"))):
         b = F.one(fn)
